@@ -328,6 +328,40 @@ def node_tree_invariant(tier, seed):
                     problems = [('the invariant can be evaluated', f'{type(e).__name__}: {e}')]
                 for clause, detail in problems[:3]:
                     bad(clause, detail, **w)
+                if problems or as_doc or fragment is not None or ti % 3:
+                    continue
+                # the same tree reached through the other entry points keeps the invariant:
+                # (1) an element node tree handed back with fragment=False gets its document node as the parent of the root element
+                try:
+                    en = get_node_tree(T.realise(t, lib), namespaces=nsarg)
+                    if not isinstance(en, DocumentNode):
+                        raw = en.value
+                        dn = get_node_tree(en, namespaces=nsarg, fragment=False)
+                        n += 1
+                        if not isinstance(dn, DocumentNode):
+                            bad('an element node tree handed back with fragment=False is presented under a document node', type(dn).__name__, **w)
+                        else:
+                            pr, _ = well_formed(dn, expected_nodes(raw, lib, nsarg, True))
+                            for clause, detail in pr[:2]:
+                                bad(clause + ' (element node tree handed back with fragment=False)', detail, **w)
+                        cn = XPathContext(get_node_tree(T.realise(t, lib), namespaces=nsarg), namespaces=nsarg, fragment=False)
+                        if not isinstance(cn.root, DocumentNode) or any(c.parent is not cn.root for c in cn.root.children):
+                            bad('XPathContext(element node, fragment=False): the document node is the parent of its children', repr(cn.root)[:80], **w)
+                except Exception as e:       # noqa
+                    bad('the invariant can be evaluated', f'{type(e).__name__}: {e}', **w)
+                # (2) the caller's prefix map is read when the context is created: changing it afterwards does not change the (lazily built) tree
+                if lib == 'et' and nsarg:
+                    try:
+                        mine = dict(nsarg)
+                        raw = T.realise(t, lib)
+                        cx = XPathContext(raw, namespaces=mine)
+                        mine['zz1'], mine['zz2'] = 'urn:zz1', 'urn:zz2'
+                        n += 1
+                        pr, _ = well_formed(cx.root, expected_nodes(raw, lib, nsarg, isinstance(cx.root, DocumentNode)))
+                        for clause, detail in pr[:2]:
+                            bad(clause + " (the caller's namespaces map changed after the context was created)", detail, **w)
+                    except Exception as e:       # noqa
+                        bad('the invariant can be evaluated', f'{type(e).__name__}: {e}', **w)
     fails = [{'key': k, 'items': it[:5], 'count': len(it), 'what': f'{k}: {it[0]["detail"]} [{it[0]["lib"]}, {it[0]["root"]}, fragment={it[0]["fragment"]}, '
               f'namespaces={it[0]["namespaces"]}, tree={it[0]["tree"][:160]}]'} for k, it in fam.items()]
     return {'evaluations': n, 'distinct': n, 'exhaustive': False,
